@@ -143,9 +143,11 @@ def run(ctx):
             continue
         ctx.functions_analysed.add(b.name)
         lim = [v['pl']['p'][0] for v in (b.rec.get('vars') or []) if v['name'] in ('self__limit', 'limit') and v['pl']['l'] == 1 and v['pl']['p']]
-        if not ctx.anchor(R5, f'{name}: the limit field', lim):
+        # .. or `self` is captured whole (a method of the executor is called) and the field is read as `self.limit`, possibly in a helper
+        by_name = any(p_.endswith('Executor::limit') for _, st in b.stmts() for pl in operand_places(st['rv']) for p_ in pl['p'])
+        if not ctx.anchor(R5, f'{name}: the limit field', lim or by_name):
             continue
-        fld = lim[0]
+        fld = lim[0] if lim else None
 
         def tainted(l, seen=None, depth=12):
             seen = seen if seen is not None else set()
@@ -160,7 +162,7 @@ def run(ctx):
                         return True
                 else:
                     for pl in operand_places(payload):
-                        if pl['l'] == 1 and fld in pl['p']:
+                        if (fld is not None and pl['l'] == 1 and fld in pl['p']) or any(p_.endswith('Executor::limit') for p_ in pl['p']):
                             return True
                         if tainted(pl['l'], seen, depth - 1):
                             return True
